@@ -14,7 +14,11 @@ import (
 )
 
 const (
-	sqlCreateTable = `CREATE TABLE IF NOT EXISTS '%s' (key STRING PRIMARY KEY, value STRING, ttl DATETIME KEY);`
+	// key and value must be declared TEXT: SQLite gives a column declared
+	// STRING numeric affinity, so keys such as "100", "0100" and "1e2" would all
+	// be stored as the integer 100 (and read each other's values) and large
+	// numbers in values would be rounded
+	sqlCreateTable = `CREATE TABLE IF NOT EXISTS '%s' (key TEXT PRIMARY KEY, value TEXT, ttl DATETIME KEY);`
 	sqlRead        = `SELECT value FROM '%s' WHERE key == ? AND ttl > unixepoch();`
 	sqlWrite       = `INSERT OR REPLACE INTO '%s' (key, value, ttl) VALUES (?, ?, ?);`
 )
